@@ -75,6 +75,11 @@ def gen(rng, tier):
         nrows = len(fr["columns"][0]["values"])
         # a signed integer column: 0 is a value like any other (and not the smallest)
         fr["columns"].append(dm.col("v", "int", [[-2, 0, 1, 0, -1, 2][i % 6] for i in range(nrows)]))
+        if rng.random() < 0.3:
+            # the same number of trials in every training row: still a COLUMN of trials, the new frame has its own
+            for col in fr["columns"]:
+                if col["name"] == "n_trials":
+                    col["values"] = [30] * nrows
         new = dm.select_rows(fr, [rng.randrange(nrows) for _ in range(rng.randint(1, 6))])
         for col in new["columns"]:
             if col["name"] == "z":
